@@ -69,7 +69,16 @@ def eff(cfg: Dict[str, Any], sched: str) -> Dict[str, Any]:
 
 
 def real_plan(sched: str, cfg: Dict[str, Any]) -> Dict[str, Any]:
-    out = sched_fn(sched)(**cfg)
+    return norm_plan(sched_fn(sched)(**cfg))
+
+
+def analyzer_norm_plan(sched: str, cfg: Dict[str, Any], win="hann", **extra) -> Dict[str, Any]:
+    """the plan the ANALYZER builds for this configuration (scheduler by name, the overlap requested explicitly), in the same normal form
+    as `real_plan`: what the user gets from SpectrumAnalyzer(..., olap=cfg['olap'], ...).plan()"""
+    return norm_plan(analyzer_plan(sched, cfg, win=win, **extra))
+
+
+def norm_plan(out) -> Dict[str, Any]:
     return {"f": np.asarray(out["f"], dtype=float), "r": np.asarray(out["r"], dtype=float), "b": np.asarray(out["b"], dtype=float),
             "L": [int(v) for v in out["L"]], "K": [int(v) for v in out["K"]], "navg": [int(v) for v in out["navg"]],
             "D": [[int(d) for d in dd] for dd in out["D"]], "O": np.asarray(out["O"], dtype=float), "nf": int(out["nf"]),
@@ -79,7 +88,7 @@ def real_plan(sched: str, cfg: Dict[str, Any]) -> Dict[str, Any]:
 def analyzer_plan(sched: str, cfg: Dict[str, Any], **extra) -> Dict[str, Any]:
     from speckit.analysis import SpectrumAnalyzer
     an = SpectrumAnalyzer(np.zeros(cfg["N"]), cfg["fs"], olap=cfg["olap"], bmin=cfg["bmin"], Lmin=cfg["Lmin"], Jdes=cfg["Jdes"],
-                          Kdes=cfg["Kdes"], scheduler=sched, win="hann", **extra)
+                          Kdes=cfg["Kdes"], scheduler=sched, **{"win": "hann", **extra})
     return an.plan()
 
 
